@@ -569,6 +569,7 @@ func buildOps(fsName, R, tier string) []fsx.Call {
 			fsx.Call{Op: "WriteFile", A: p, Data: "hello", Perm: 0o644},
 			fsx.Call{Op: "Truncate", A: p, N: 0},
 			fsx.Call{Op: "Truncate", A: p, N: 3},
+			fsx.Call{Op: "Truncate", A: p, N: 7},
 			fsx.Call{Op: "Truncate", A: p, N: -1},
 			fsx.Call{Op: "Chmod", A: p, Perm: 0o600},
 			fsx.Call{Op: "Chmod", A: p, Perm: 0o1777},
